@@ -1,3 +1,108 @@
 import FiberModel.DriverUtil
--- stub driver for C10; replaced when the property's model lands
-def main : IO Unit := pure ()
+import FiberModel.C10.Spec
+/-
+Driver for C10. Case fields (after the id):
+  cfg(5 flags) proxies(hexlist) phdr peer tls host off rawA rawB | peerinfo pinfo nphdr viewA uhA viewB uhB | obs(A|B)
+-/
+open B DriverUtil C10
+
+def pairs : List Bytes → Option (List (Bytes × Bytes))
+  | [] => some []
+  | [_] => none
+  | k :: v :: rest => (pairs rest).map ((k, v) :: ·)
+
+def kvGet (s : String) : String → Option String :=
+  let kv := (s.splitOn ";").filterMap fun p => match p.splitOn "=" with
+    | [k, v] => some (k, v) | _ => none
+  fun k => (kv.find? (·.1 == k)).map (·.2)
+
+def parseProxy (s : String) : Option Proxy :=
+  match s.splitOn ":" with
+  | ["bad"] => some .bad
+  | ["ip", c, i] => do some (.ip (← fromHex c) (← fromHex i))
+  | ["cidr", n, m] => do some (.cidr (← fromHex n) (← fromHex m))
+  | _ => none
+
+def bool01 (x : Bool) : String := if x then "1" else "0"
+
+def renderOut (o : Out) : String :=
+  s!"t={bool01 o.trusted};ip={toHexField o.ip};ips={hexListField o.ips};host={toHexField o.host};hn={toHexField o.hostname};" ++
+  s!"sch={toHexField o.scheme};base={toHexField o.baseURL};sec={bool01 o.secure};sub={hexListField o.sub};" ++
+  s!"subo={hexListField o.subo};proto={toHexField o.proto}"
+
+def parseOut (s : String) : Option Out := do
+  let g := kvGet s
+  some { trusted := (← g "t") == "1", ip := ← (g "ip").bind fromHex, ips := ← (g "ips").bind hexList,
+         host := ← (g "host").bind fromHex, hostname := ← (g "hn").bind fromHex, scheme := ← (g "sch").bind fromHex,
+         baseURL := ← (g "base").bind fromHex, secure := (← g "sec") == "1", sub := ← (g "sub").bind hexList,
+         subo := ← (g "subo").bind hexList, proto := ← (g "proto").bind fromHex }
+
+def forwardingKeys (nphdr : Bytes) : List Bytes := [sXFF, sXFH, sXFProto, sXFProtocol, sXFSsl, sXUrlScheme, nphdr]
+
+def handleCase (f : List String) : Except String Verdict := do
+  match f with
+  | [id, flags, proxies, phdr, peer, tls, hostH, off, rawA, rawB, peerinfo, pinfo, nphdr, viewA, uhA, viewB, uhB, impl] =>
+    let fl := flags.splitOn ","
+    if fl.length != 5 || fl.any (fun x => x != "0" && x != "1") then throw "outside-domain: flags"
+    let some proxiesRaw := hexList proxies | throw "outside-domain: proxies"
+    let some phdr := fromHex phdr | throw "outside-domain: phdr"
+    let some nphdr := fromHex nphdr | throw "outside-domain: nphdr"
+    let some _hostH := fromHex hostH | throw "outside-domain: host"
+    let some off := off.toNat? | throw "outside-domain: offset"
+    let some rawA := (hexList rawA).bind pairs | throw "outside-domain: rawA"
+    let some rawB := (hexList rawB).bind pairs | throw "outside-domain: rawB"
+    let some viewA := (hexList viewA).bind pairs | throw "outside-domain: viewA"
+    let some viewB := (hexList viewB).bind pairs | throw "outside-domain: viewB"
+    let some uhA := fromHex uhA | throw "outside-domain: uhA"
+    let some uhB := fromHex uhB | throw "outside-domain: uhB"
+    let pg := kvGet peerinfo
+    let some rip := (pg "rip").bind fromHex | throw "outside-domain: peerinfo"
+    let some ripStr := (pg "str").bind fromHex | throw "outside-domain: peerinfo"
+    if rip.length != 4 && rip.length != 16 then throw "outside-domain: peer address length"
+    if peer != "u" && !(peer.startsWith "t:") then throw "outside-domain: peer"
+    let some ps := (if pinfo == "-" then some [] else (pinfo.splitOn "|").mapM parseProxy) | throw "outside-domain: pinfo"
+    if ps.length != proxiesRaw.length then throw "outside-domain: pinfo length"
+    let cfg : Cfg := { trustProxy := fl[0]! == "1", loopback := fl[1]! == "1", priv := fl[2]! == "1", linkLocal := fl[3]! == "1",
+                       validate := fl[4]! == "1", proxies := ps, proxyHeader := phdr, normProxyHeader := nphdr }
+    -- the pair must agree off the forwarding headers, and on the connection-derived host
+    let fk := forwardingKeys nphdr
+    let offFwd (v : Headers) := v.filter fun p => !fk.contains p.1
+    if offFwd viewA != offFwd viewB then throw "outside-domain: requests differ outside the forwarding headers"
+    if uhA != uhB then throw "outside-domain: requests differ in the Host header"
+    if rawA.length > 64 || rawB.length > 64 then throw "outside-domain: too many headers"
+    let (ia, ib) ← match impl.splitOn "|" with
+      | [x, y] => pure (x, y)
+      | _ => throw "outside-domain: observation"
+    let some oa := parseOut ia | throw "outside-domain: observation A"
+    let some ob := parseOut ib | throw "outside-domain: observation B"
+    let cn : Conn := { rip := rip, ripStr := ripStr, tls := tls == "1", uriHost := uhA, proto := oa.proto }
+    let ma := outputs cfg cn off viewA
+    let mb := outputs cfg cn off viewB
+    -- parameter checks: Go's classification of the peer against the model's, and that String() is a
+    -- function of the address (listed entry equal as address ⇔ equal canonical text)
+    let classOK := pg "lb" == some (bool01 (isLoopback rip)) && pg "pr" == some (bool01 (isPrivate rip)) &&
+                   pg "ll" == some (bool01 (isLinkLocal rip))
+    let strOK := ps.all fun | .ip canon ip16 => (ip16 == to16 rip) == (canon == ripStr) | _ => true
+    let blocksOK := inLoopback rip == isLoopback rip && inPrivate rip == isPrivate rip && inLinkLocal rip == isLinkLocal rip
+    let modelObs := if !classOK then "param-mismatch:class" else if !strOK then "param-mismatch:string"
+                    else if !blocksOK then "param-mismatch:blocks" else renderOut ma ++ "|" ++ renderOut mb
+    let spec := specViolation cfg cn off viewA viewB oa ob
+    let k1 := Known.K1 cfg viewA || Known.K1 cfg viewB
+    let known := if spec.isSome && k1 && (spec == some "validated-ip-is-valid" || spec == some "trusted-documented-values ip") then some "K1" else none
+    let member := inSet cfg cn
+    let fwdPresent := (viewA.any fun p => fk.contains p.1) || (viewB.any fun p => fk.contains p.1)
+    let differ := viewA != viewB
+    let how := if !cfg.trustProxy then "trust-off"
+               else if !member then "outside-set"
+               else if ps.any (fun | .ip _ ip16 => ip16 == to16 rip | _ => false) then "listed"
+               else if ps.any (fun | .cidr n m => cidrContains n m rip | _ => false) then "in-cidr" else "in-class"
+    let fam := if (to4 rip).isSome then (if rip.length == 4 then "v4" else "v4mapped") else "v6"
+    let nt := if cfg.trustProxy && !member && fwdPresent && differ then ["nt-untrusted"]
+              else if cfg.trustProxy && member && fwdPresent then ["nt-trusted"] else []
+    let tags := [how, fam] ++ nt ++ (if cn.tls then ["tls"] else []) ++ (if cfg.validate then ["validate"] else []) ++
+      (if phdr != [] then ["proxyheader"] else []) ++ (if ma.ip != ripStr then ["ip-forwarded"] else []) ++
+      (if ma.scheme == sHTTPS && !cn.tls then ["https-forwarded"] else []) ++ (if k1 then ["k1"] else [])
+    return { id := id, modelObs := modelObs, implObs := impl, spec := spec, known := known, tags := tags }
+  | _ => throw s!"outside-domain: expected 18 fields, got {f.length}"
+
+def main : IO Unit := run handleCase
